@@ -64,6 +64,8 @@ PrefixNone == << >>
 Disc(p) == <<[a |-> "connect", p |-> p], [a |-> "discover", p |-> p, ents |-> {"1", "2"}, ack |-> FALSE]>>
 PrefixP1 == Disc("p1")
 PrefixP1P2 == Disc("p1") \o Disc("p2")
+PrefixM1P2 == Disc("m1") \o Disc("p2")
+PrefixP1M2 == Disc("p1") \o Disc("m2")
 
 Emit == PrintT(<<"B", ToJson(hist')>>)
 \* full history tree (no VIEW): only the leaves are printed, every shorter history is a prefix of one
